@@ -31,6 +31,7 @@ type report struct {
 	Harnesses    []*harnessReport
 	Notes        []string
 	Inconclusive int
+	Partial      bool // restricted run (harness filter or replay switched off)
 	SolverErrors []string
 }
 
@@ -321,9 +322,17 @@ func (rep *report) finish(ld *loaded, known map[string]knownFinding, noReplay bo
 		"property_id": rep.Prop, "tier": rep.Tier, "seed": rep.Seed, "level": "model_checking",
 		"coverage": cov, "assumptions": rep.Cfg.Assumptions, "wall_s": round2(wall), "violations": violations,
 	}
-	os.MkdirAll(filepath.Join(verifDir, "evidence"), 0o755)
+	evDir := filepath.Join(verifDir, "evidence")
+	if rep.Partial {
+		// a debugging run (harness filter / no replay) does not describe the check: keep it out of the evidence directory
+		evDir = filepath.Join(verifDir, "out", "evidence-partial")
+	}
+	os.MkdirAll(evDir, 0o755)
 	data, _ := json.MarshalIndent(ev, "", " ")
-	if err := os.WriteFile(filepath.Join(verifDir, "evidence", rep.Prop+".json"), data, 0o644); err != nil {
+	if rep.Tier == "thorough" && !rep.Partial {
+		_ = os.WriteFile(filepath.Join(evDir, rep.Prop+".thorough.json"), data, 0o644)
+	}
+	if err := os.WriteFile(filepath.Join(evDir, rep.Prop+".json"), data, 0o644); err != nil {
 		fmt.Fprintln(os.Stderr, "evidence:", err)
 	}
 
